@@ -63,6 +63,11 @@ class TermWorld:
                 nm = a.asname or root
                 if root in THIRD_PARTY:
                     self.env[nm] = SymNS(nm)
+                elif root in ("itertools", "functools", "operator", "math"):
+                    import importlib
+
+                    mod_ = importlib.import_module(root)
+                    self.env[nm] = _ModuleNS({k: getattr(mod_, k) for k in dir(mod_) if not k.startswith("_")})
         elif isinstance(st, ast.ImportFrom):
             root = (st.module or "").split(".")[0]
             for a in st.names:
